@@ -1157,3 +1157,56 @@ def no_memo(ctx, extra_roots=()):
                 ctx.ok("STATE", key, ctx.where(f, node), "every changeable attribute the result is computed from takes part in the reuse test")
     ctx.ok("STATE", "closure / STATE / no result of an earlier call is reused without invalidation", "forsys/*",
            f"{len(closure)} functions reachable from the {len(roots)} functions this property reads; {n_sites} memoisation site(s) examined")
+
+
+# ------------------------------------------------------------------ obligations shared between properties
+_LENDING = []
+
+
+def borrow(ctx, lender, funcs=(), key_parts=(), minimum=1, because="", exclude_rules=()):
+    """Obligations that another property's check binds to the given functions are necessary conditions of this property too (the
+    statement reads what those functions compute): run the lender's obligations on the same tree and take over the results
+    anchored in `funcs` (qualified names) or whose key contains one of `key_parts`.  Not transitive.  A lender that cannot be
+    evaluated completely lends what it decided before it stopped; fewer than `minimum` results is 'cannot decide'."""
+    from . import core, props
+    if _LENDING:
+        return []          # we are being evaluated as a lender ourselves
+    cache = ctx.repo.__dict__.setdefault("_lender_results", {})
+    if lender not in cache:
+        _LENDING.append(lender)
+        try:
+            sub = core.Ctx(lender, ctx.repo, ctx.tier)
+            err = None
+            try:
+                props.load(lender).run(sub)
+            except AnalysisError as e:
+                err = str(e)
+            cache[lender] = (sub, err)
+        finally:
+            _LENDING.pop()
+    sub, err = cache[lender]
+    funcs = set(funcs)
+    taken = []
+    for r in sub.results:
+        qn = r.where.split()[1] if len(r.where.split()) > 1 else ""
+        if (qn in funcs or any(k in r.key for k in key_parts)) and r.rule not in exclude_rules:
+            taken.append(r)
+    ctx.clause(f"shared with {lender}: {because}")
+    for r in taken:
+        ctx.results.append(core.Result(r.rule, r.key, r.status, r.where, r.fact, ctx._clause, r.soft))
+        if len(r.where.split()) > 1 and r.where.split()[1] in ctx.repo.functions:
+            ctx.touch(ctx.repo.functions[r.where.split()[1]])
+    ctx.rule_instances[f"SHARED:{lender}:{','.join(sorted(x.split('.')[-1] for x in funcs)) or ','.join(key_parts)}"] = dict(found=len(taken), frozen_minimum=minimum)
+    import re
+    at = re.match(r"\S+:\d+ ([\w.<>]+):? ", err or "")
+    elsewhere = err is not None and ((at is not None and at.group(1) not in funcs) or (at is None and not any(q in err for q in funcs)))
+    if len(taken) < minimum and elsewhere:
+        # the lender stopped at an anchor outside the shared functions: nothing is known about them from there, and this property's
+        # verdict rests on its own obligations (the lender's own run reports the stop)
+        ctx.notes.append(f"obligations shared with {lender} on {sorted(x.split('.')[-1] for x in funcs) or list(key_parts)} not evaluated: "
+                         f"{lender} stopped elsewhere ({err[:120]})")
+    elif len(taken) < minimum:
+        ctx.undecided("SHARED", f"{lender} / obligations on {sorted(funcs) or list(key_parts)}", "forsys/*",
+                      f"only {len(taken)} of at least {minimum} obligations of {lender} could be evaluated"
+                      f"{' (' + err[:160] + ')' if err else ''}: cannot decide the shared clause")
+    return taken
